@@ -3,7 +3,7 @@ From Coq Require Import List NArith.
 From NoKV Require Import Base.Bytes Model.Lsm Spec.MvccSpec Spec.LsmSpec Proofs.LsmMain.
 
 Theorem C12_reads_latest : forall s ws k v,
-  Proofs.LsmGet.src_inv s -> tier_inv (tiers_of s) -> content_ok s ws -> seq_functional ws ->
+  Proofs.LsmGet.src_inv s -> scan_inv (scan_srcs s) -> content_ok s ws -> seq_functional ws ->
   get s k v = latest_at ws k v.
 Proof. exact get_latest. Qed.
 Print Assumptions C12_reads_latest.
